@@ -20,6 +20,7 @@ P_SRCS = {
     'uni': 'ü = g("é", ñ [ 0 ])  # ç\nz = -ü\n',
     'block': 'if a :  # h\n    b = ( 1,\n          2 )\nelse :\n    c\n',
     'deco': '@ d1\n@d2 ( q )\ndef f ( a , b = 1 ) :\n    return a\n',
+    'fstr': 'x = f\'{ {1, 2}} { a + b } {d [ 0 ] !r:>{ w }}\'\ny = f"é{ ü . v }{ {k : 1} }"\n',
     'misc': 'r = lambda p , * q : p if q else { 1 : 2 , ** s }\nt = a . b [ 1 : 2 ]\n',
 }
 
@@ -90,4 +91,4 @@ for _k in P_SRCS:
     CELLS.append(Cell(f'P1.put_src_offset[{_k}]', _mk_gap(_k), 'P', ['fst.fst.FST.put_src', 'fst.fst_core._put_src', 'fst.fst_core._params_offset', 'fst.fst_core._offset', 'fst.fst_misc.clip_src_loc'],
                       f'carrier {_k}: every inter-token gap found by tokenize ({len(_gaps(P_SRCS[_k]))}), symbolic sub-range [a, b] of the gap replaced by k in 0..3 blanks, called on the innermost node strictly containing the spot '
                       '(computed from CPython positions); result must be the splice and re-parse to the live tree incl. positions (finite choice + pinned columns)',
-                      tier='quick' if _k in ('expr', 'uni', 'deco') else 'thorough', budget=600, per_path=60, out='multi-line replacements; comments as replacement text', reset=pc.reset_globals))
+                      tier='quick' if _k in ('expr', 'uni', 'deco', 'fstr') else 'thorough', budget=600, per_path=60, out='multi-line replacements; comments as replacement text', reset=pc.reset_globals))
